@@ -47,6 +47,9 @@ impl Ctx {
 
     pub fn run_fuzz(&mut self, spec: FuzzSpec, oracle: impl Fn(&[u8]) -> Result<bool, String>) {
         let part = format!("fuzz_{}", spec.target);
+        if !self.part_selected(&part) {
+            return;
+        }
         let run = |bytes: &[u8]| -> Result<bool, String> {
             match no_panic("oracle", || oracle(bytes)) {
                 Ok(r) => r,
